@@ -60,6 +60,16 @@ def php_expr(e, top=False):
         return "[" + ", ".join(php_expr(x, True) for x in e[1]) + "]"
     if k == "call":
         return "%s(%s)" % (e[1], ", ".join(php_expr(x, True) for x in e[2]))
+    if k == "new":
+        return "new %s(%s)" % (e[1], php_expr(e[2], True))
+    if k == "msg":
+        return "%s->getMessage()" % php_expr(e[1])
+    if k == "class":
+        return "get_class(%s)" % php_expr(e[1], True)
+    if k == "same":
+        return "(%s === %s)" % (php_expr(e[1]), php_expr(e[2]))
+    if k == "panic":
+        return "verif_panic()"      # registered by harness/cmd/c05: a built-in whose Go body panics
     raise ValueError(k)
 
 
@@ -110,11 +120,24 @@ def php_stmt(s, ind=0):
         return p + ("return;\n" if s[1] is None else "return %s;\n" % php_expr(s[1], True))
     if k == "static":
         return p + "static $%s = %s;\n" % (s[1], php_lit(s[2]))
+    if k == "try":
+        out = p + "try {\n%s%s}" % (php_block(s[1], ind + 1), p)
+        for ty, x, b in s[2]:
+            out += " catch (%s%s) {\n%s%s}" % (ty, "" if x is None else " $" + x, php_block(b, ind + 1), p)
+        if s[3] is not None:
+            out += " finally {\n%s%s}" % (php_block(s[3], ind + 1), p)
+        return out + "\n"
+    if k == "throw":
+        return p + "throw %s;\n" % php_expr(s[1], True)
     raise ValueError(k)
 
 
 def php_prog(pr):
     out = "<?php\n"
+    for i in pr.get("ifaces", []):
+        out += "interface %s%s {}\n" % (i[0], (" extends " + ", ".join(i[1])) if i[1] else "")
+    for c in pr.get("classes", []):
+        out += "class %s extends %s%s {}\n" % (c[0], c[1], (" implements " + ", ".join(c[2])) if c[2] else "")
     for f in pr["funcs"]:
         ps = ", ".join("$" + x + ("" if d is None else " = " + php_lit(d[0])) for x, d in f["params"])
         out += "function %s(%s) {\n%s}\n" % (f["name"], ps, php_block(f["body"], 1))
@@ -160,6 +183,16 @@ def coq_expr(e):
         return "(EArr %s)" % coq_args(e[1])
     if k == "call":
         return "(ECall %s %s)" % (coq_string(e[1]), coq_args(e[2]))
+    if k == "new":
+        return "(ENew %s %s)" % (coq_string(e[1]), coq_expr(e[2]))
+    if k == "msg":
+        return "(EMsg %s)" % coq_expr(e[1])
+    if k == "class":
+        return "(EClass %s)" % coq_expr(e[1])
+    if k == "same":
+        return "(ESame %s %s)" % (coq_expr(e[1]), coq_expr(e[2]))
+    if k == "panic":
+        return "EPanic"
     raise ValueError(k)
 
 
@@ -209,6 +242,13 @@ def coq_stmt(s):
         return "(SReturn %s)" % ("None" if s[1] is None else "(Some %s)" % coq_expr(s[1]))
     if k == "static":
         return "(SStatic %s %s)" % (coq_string(s[1]), coq_value(s[2]))
+    if k == "try":
+        cs = "CTNil"
+        for ty, x, b in reversed(s[2]):
+            cs = "(CTCons %s %s %s %s)" % (coq_string(ty), "None" if x is None else "(Some %s)" % coq_string(x), coq_block(b), cs)
+        return "(STry %s %s %s)" % (coq_block(s[1]), cs, coq_block(s[3] or []))
+    if k == "throw":
+        return "(SThrow %s)" % coq_expr(s[1])
     raise ValueError(k)
 
 
@@ -244,8 +284,8 @@ def kinds_of(x, acc):
 
 
 STMT_KINDS = {"expr", "echo", "push", "if", "while", "dowhile", "for", "foreach", "switch", "break", "continue",
-              "return", "static"}
-EXPR_KINDS = {"assign", "postinc", "call", "and", "or", "not", "arr"}
+              "return", "static", "try", "throw"}
+EXPR_KINDS = {"assign", "postinc", "call", "and", "or", "not", "arr", "new", "msg", "class", "same", "panic"}
 
 
 # ----------------------------------------------------------------------------- generator
@@ -815,6 +855,11 @@ class _Ret(Exception):
         self.v = v
 
 
+class _Thr(Exception):
+    def __init__(self, v):
+        self.v = v
+
+
 class Probe:
     """A plain evaluator of the generator's AST used ONLY to discard programs whose integers could leave
     the 64-bit range or that run too long (the Coq model computes in Z, the interpreter in int64; the
@@ -824,6 +869,9 @@ class Probe:
 
     def __init__(self, pr, budget=60000):
         self.funcs = {f["name"]: f for f in pr["funcs"]}
+        self.classes = {c[0]: c for c in pr.get("classes", [])}
+        self.ifaces = {i[0]: i for i in pr.get("ifaces", [])}
+        self.nextid = 0
         self.statics = {}
         self.steps = budget
         self.pr = pr
@@ -912,7 +960,49 @@ class Probe:
             except _Ret as r:
                 return r.v
             return None
+        if k == "new":
+            m = self.tostr(self.ev(e[2], fr))
+            self.nextid += 1
+            return ("obj", self.nextid, e[1], m)
+        if k in ("msg", "class"):
+            v = self.ev(e[1], fr)
+            if not isinstance(v, tuple):
+                raise _Thr(("err", "not an object"))
+            return v[3] if k == "msg" else v[2]
+        if k == "same":
+            a, b = self.ev(e[1], fr), self.ev(e[2], fr)
+            if isinstance(a, tuple) and isinstance(b, tuple):
+                return a[1] == b[1]
+            return a == b and type(a) == type(b)
+        if k == "panic":
+            raise _Thr(("err", "panic"))
         raise ValueError(k)
+
+    def is_a(self, cls, target):
+        seen = set()
+        while cls is not None and cls not in seen:
+            seen.add(cls)
+            if cls == target:
+                return True
+            c = self.classes.get(cls)
+            impls = c[2] if c else (["Throwable"] if cls in ("Exception", "Error") else [])
+            todo = list(impls)
+            vis = set()
+            while todo:
+                i = todo.pop()
+                if i == target:
+                    return True
+                if i in vis:
+                    continue
+                vis.add(i)
+                todo += self.ifaces.get(i, (i, []))[1]
+            cls = c[1] if c else None
+        return False
+
+    def catches(self, ty, v):
+        if v[0] == "err":
+            return ty in ("Throwable", "Exception", "Error")
+        return self.is_a(v[2], ty) or (ty == "Throwable" and (self.is_a(v[2], "Exception") or self.is_a(v[2], "Error")))
 
     def block(self, b, fr):
         for s in b:
@@ -1001,6 +1091,28 @@ class Probe:
             if (fr["fn"], s[1]) not in self.statics:
                 self.statics[(fr["fn"], s[1])] = s[2]
             fr["static"].add(s[1])
+        elif k == "throw":
+            v = self.ev(s[1], fr)
+            raise _Thr(v if isinstance(v, tuple) else ("err", self.tostr(v)))
+        elif k == "try":
+            pending = None
+            try:
+                try:
+                    self.block(s[1], fr)
+                except _Thr as t:
+                    for ty, x, b in s[2]:
+                        if self.catches(ty, t.v):
+                            if x is not None:
+                                self.wr(fr, x, t.v)
+                            self.block(b, fr)
+                            break
+                    else:
+                        raise
+            except (_Thr, _Brk, _Cnt, _Ret) as p:
+                pending = p
+            self.block(s[3] or [], fr)
+            if pending is not None:
+                raise pending
         else:
             raise ValueError(k)
 
@@ -1009,7 +1121,7 @@ class Probe:
             self.block(self.pr["main"], {"fn": "", "vars": {}, "static": set()})
         except TooBig:
             return False
-        except (_Brk, _Cnt, _Ret):
+        except (_Brk, _Cnt, _Ret, _Thr):
             return True
         except (TypeError, KeyError, RecursionError):
             return False
